@@ -1258,14 +1258,79 @@ class _FnState(object):
                 # counters are exact, but their type is not known here;
                 # the property asks for identical results)
                 accum = self.loop_ord(stmt, env, base.id)
+            # `table[i] = x` in a loop whose visiting order is labelled,
+            # into a table that outlives the loop, at a position that is
+            # not given by the loop element itself: a later element may
+            # overwrite what an earlier one stored (last writer wins, or
+            # "replace if larger" with ties), so what is left depends on
+            # the visiting order
+            over = EMPTY
+            if not aug:
+                over = self._overwrite_labels(target, stmt, env, base.id)
             out[base.id] = AV(kind, newo | av.ord,
-                              old.val | av.val | idx_val | accum,
+                              old.val | av.val | idx_val | accum | over,
                               newk | av.kord)
             # a dataset handle: persistent write
             if self._is_dataset(base.id, env):
-                self._sink(av.ord | av.val | idx_val, stmt, 'HDF5 dataset')
+                self._sink(av.ord | av.val | idx_val | over, stmt,
+                           'HDF5 dataset')
+            elif over and self._is_h5_write_handle(base.id):
+                self._sink(av.ord | av.val | idx_val | over, stmt,
+                           'HDF5 dataset')
         else:
             out[base.id] = AV(old.kind, old.ord, old.val | av.val)
+
+    def _overwrite_labels(self, target, stmt, env, base_name):
+        labs = set()
+        loops = self.loop_labels.get(id(stmt), [])
+        if not loops:
+            return EMPTY
+        skip = self._loops_enclosing_creation(base_name, stmt, loops)
+        idx_names = set()
+        t = target
+        while isinstance(t, (ast.Subscript, ast.Attribute)):
+            if isinstance(t, ast.Subscript):
+                idx_names |= {x.id for x in ast.walk(t.slice)
+                              if isinstance(x, ast.Name)}
+            t = t.value
+        for lp in loops:
+            if id(lp) in skip:
+                continue
+            lo = self.ev(lp.iter, env).iter_ord
+            if not lo:
+                continue
+            lvars = {x.id for x in ast.walk(lp.target)
+                     if isinstance(x, ast.Name)}
+            if lvars & idx_names:
+                continue          # one slot per element: no overwrite
+            labs |= lo
+        return frozenset(labs)
+
+    def _is_h5_write_handle(self, name):
+        for n in ast.walk(self.fi.node):
+            call = None
+            if isinstance(n, ast.With):
+                for it in n.items:
+                    if isinstance(it.optional_vars, ast.Name) \
+                            and it.optional_vars.id == name:
+                        call = it.context_expr
+            elif isinstance(n, ast.Assign) and len(n.targets) == 1 \
+                    and isinstance(n.targets[0], ast.Name) \
+                    and n.targets[0].id == name:
+                call = n.value
+            if isinstance(call, ast.Call) and isinstance(
+                    call.func, ast.Attribute) and call.func.attr == 'File':
+                mode = None
+                if len(call.args) > 1 and isinstance(
+                        call.args[1], ast.Constant):
+                    mode = call.args[1].value
+                for kw in call.keywords:
+                    if kw.arg == 'mode' and isinstance(
+                            kw.value, ast.Constant):
+                        mode = kw.value.value
+                if mode in ('a', 'w', 'r+', 'w-', 'x'):
+                    return True
+        return False
 
     def _born_empty(self, name, stmt):
         """every reaching definition of `name` is an empty dict"""
